@@ -295,6 +295,13 @@ def zero_is_a_value_rule(index, rep, rid, modules, exempt=None):
                 if not (isinstance(b, ast.BoolOp) and isinstance(b.op, ast.Or) and len(b.values) == 2):
                     continue
                 x, d = b.values
+                # `kwargs.pop("length", None) or None`: the option carries a number of the data model, and `or None`
+                # turns a given 0 / 0.0 into 'not given'
+                if isinstance(x, ast.Call) and call_name(x) in ("pop", "get") and x.args and isinstance(x.args[0], ast.Constant) and x.args[0].value in NUMERIC_ATTRS and is_none(d) and not _in_test_position(fi, b):
+                    n += 1
+                    rep.check(False, rid, fi.qualname, "`%s` turns a given 0 into None" % _canon_names(norm(b), fi), fn_where(fi, b), "",
+                              "%s computes `%s`: the option is %s, and `or None` replaces an explicit 0 / 0.0 by None - an edge created with length 0 (the new root placed AT one end of an edge, reroot_at_edge(e, length1=0, length2=x)) has no length at all, the total tree length is no longer defined and a following reroot_at_midpoint() fails with TypeError" % (fi.qualname, norm(b)[:60], NUMERIC_ATTRS[x.args[0].value]))
+                    continue
                 if not isinstance(x, (ast.Name, ast.Attribute, ast.Subscript)):
                     continue
                 if isinstance(d, ast.Constant) and any(d.value is v or (type(d.value) is type(v) and d.value == v) for v in _SAME_FALSY):
